@@ -24,7 +24,7 @@ Extraction "model.ml"
   Checksum.file_checksum
   Path.path_components Path.path_strip_prefix Path.path_native Path.path_native2
   Udp.udp_recv Udp.udp_initial_buffer
-  FsModel.fs_request FsModel.fs_resp_code FsModel.fs_tree_of FsModel.fs_entries
+  FsModel.fs_mk_request FsModel.fs_resp_code FsModel.fs_tree_of FsModel.fs_entries
   FsModel.fs_process_request FsModel.fs_exec_requests
   (* codec (C05, C06) *)
   Codec.pdu_encode Codec.pdu_decode Codec.payload_encoded_len Codec.pdu_encoded_len Codec.fix_len
